@@ -1,13 +1,46 @@
-"""C06 - parallel builds are schedule independent and bounded.   (work in progress)
+"""C06 - parallel builds are schedule independent and bounded.
+
+oracle (implementation alone, the property's own wording):
+  (a) JobServerSemaphore alone: k tasks on n tokens on a real FIFO and a real asyncio loop, random acquire /
+      release orders with several commands per loop iteration (hand-overs in flight), a child make that takes
+      and returns tokens, both modes: owners <= slots, pipe + held + child == n at every step, everything
+      released => pipe == n, release without owner raises, release by an owner never raises, no waiter starves;
+  (b) the REAL LocalBuilder.cook, driven through `bob dev` in a child process on a real selector loop whose
+      `_run_once` reports quiescence, `_runShell` replaced by an awaitable the harness completes in the drawn
+      order (success / injected failure, also two at once), internal and external job server, -j1, -k, -B:
+      a script starts only after the scripts of all valid dependencies ended successfully; no workspace runs
+      twice (unless its previous run failed) or concurrently; <= jobs scripts run; failures are reported; every
+      slot taken is given back, tokens and pipe content are restored; results equal the sequential dataflow;
+  (c) real subprocess runs (bash scripts that log start/end, sleep and derive their result from their
+      inputs) with -j1 and -jN: the same checks on the log, dist results equal those of the sequential build.
+correspond: the schedules the implementation took in (a) and (b) are replayed on the Lean model (drv_c06):
+  events per task step and the scheduler state after each step must agree (token counters, pipe, reader
+  registration, running flag, error count, locked workspaces, wasRun table, tracker sizes); the model's
+  executable invariants (the statements of Props/C06.lean) are evaluated after every step, and on random
+  schedules of the model for the same projects.
 """
 import json
 import os
 import subprocess
 import sys
+import time
 
 DRIVER = "drv_c06"
-RULE = "tbd"
-ASSUMPTIONS = []
+RULE = ("(a) semaphore alone: seeds x {recursive, non-recursive}, n=1..3 tokens, k=2..5 tasks, 40 commands, up to 3 commands "
+        "per loop iteration; (b) generated projects (2..8 packages, deps on 0..4 later packages so that packages are reached on "
+        "several paths, tools for build and checkout steps, build variants sharing a checkout, packages without checkout/build "
+        "script, 1..3 roots) x jobs in {1,2,3,4,6} x {internal, external job server} x {-k} x {-B} x injected failing steps x a "
+        "drawn list of environment choices (which running script ends next, two at once, child make takes/returns a token); "
+        "(c) the same generator with real scripts. A case is distinct by (project spec, invocation, choice list) resp. seed and "
+        "non-trivial if at least one script was started resp. one acquire blocked or was handed over.")
+ASSUMPTIONS = [
+    "asyncio (CPython 3.12) cooperative contract: a task runs until its next real suspension; Semaphore/Lock FIFO semantics as modelled",
+    "no cancellation (SIGINT), --no-deps, --resume, live-build-id prediction/restart round, downloads/uploads, shared packages, "
+    "fingerprint scripts, audit generation: outside the model and switched off in the driven runs",
+    "a cook*Step call counts as one execution of the workspace; the skip/incremental logic inside is C01's subject",
+    "same workspace path => same variant id for valid steps (C16) is a hypothesis of the ordering theorems",
+    "child make processes are an environment that takes tokens from the pipe and gives every one back",
+]
 
 HERE = os.path.dirname(os.path.abspath(__file__))
 CHILD = os.path.join(os.path.dirname(HERE), "gen", "c06_child.py")
@@ -200,6 +233,40 @@ def gen_controlled_case(r, base, idx, recursive_share=0.0):
     return case
 
 
+def _pk(name, deps, checkout=False, build=True, tool=False, buildTools=(), checkoutTools=()):
+    return {"name": name, "deps": list(deps), "env": {}, "checkout": checkout, "build": build, "package": True, "tool": tool,
+            "variant": False, "buildTools": list(buildTools), "checkoutTools": list(checkoutTools), "dur": [0.0, 0.0, 0.0]}
+
+
+def targeted_cases(r, base):
+    """small cases that reach the corners quickly: three parallel leaves on two slots finishing together (external and
+    internal job server), a failing leaf next to a long chain without keep-going, a checkout tool under --checkout-only
+    (the same package cooked with and without checkoutOnly), a child make draining the pipe while tasks wait"""
+    from gen import c06_projects as P
+    out = []
+
+    def add(tag, spec, argv, choices, fail=(), env_takes=0, makeflags=None):
+        d = os.path.join(base, "t-%s" % tag)
+        roots = P.write_project(spec, d)
+        out.append({"name": "t-%s" % tag, "dir": d, "argv": list(roots) + ["-A", "--download", "no"] + argv,
+                    "choices": choices, "fail": list(fail), "env_takes": env_takes, "makeflags": makeflags, "spec": spec})
+    fan = {"packages": [_pk("p0", [1, 2, 3]), _pk("p1", []), _pk("p2", []), _pk("p3", [])], "roots": [0]}
+    add("fan-ext", fan, [], [0] * 40, makeflags={"jobs": 2, "tokens": 1})
+    add("fan-ext-k", fan, ["-k"], [r.randrange(1 << 16) for _ in range(40)], makeflags={"jobs": 3, "tokens": 2}, env_takes=2)
+    add("fan-int", fan, ["-j", "2"], [0] * 40, env_takes=3)
+    add("fan-int-take", fan, ["-j", "2"], [2, 2, 5, 3, 7, 2, 9, 4, 1, 6] * 4, env_takes=4)
+    chain = {"packages": [_pk("p0", [1, 2]), _pk("p1", []), _pk("p2", [3]), _pk("p3", [4]), _pk("p4", [])], "roots": [0]}
+    add("fail-stop", chain, ["-j", "2"], [1, 0, 0, 0, 0] * 8, fail=["dev/build/p1/1/workspace"])
+    add("fail-stop3", chain, ["-j", "3"], [0] * 40, fail=["dev/dist/p1/1/workspace"])
+    add("fail-keep", chain, ["-j", "2", "-k"], [1, 0, 0, 0, 0] * 8, fail=["dev/build/p1/1/workspace"])
+    tool = {"packages": [_pk("p0", [1, 2], checkout=True, checkoutTools=[2]), _pk("p1", [2], checkout=True, buildTools=[2]),
+                         _pk("p2", [], checkout=True, tool=True)], "roots": [0]}
+    add("cotool", tool, ["-j", "3", "-B"], [0] * 40)
+    add("cotool1", tool, ["-j", "1", "-B"], [0] * 40)
+    add("cotool-full", tool, ["-j", "2"], [3, 1, 4, 1, 5, 9, 2, 6] * 5)
+    return out
+
+
 def run_children(repo, cases, out_dir, workers=8, timeout=120):
     """spread the cases over child processes; returns {name: result}"""
     chunks = [cases[i::workers] for i in range(workers)]
@@ -320,12 +387,20 @@ def oracle_trace(o):
     first_fail_seen = False
     held = 0            # tokens taken - tokens given back, from the acquire/release events
     events = []
+    spawned_at = {}
+    fail_recorded_at = None
+    pos = 0
     for it in o["trace"]:
         if it["k"] == "task":
             for e in it["ev"]:
                 events.append((it["t"], e, it.get("s")))
+                if e[0] == "spawn":
+                    spawned_at[e[1]] = pos
+                if e[0] == "done" and not e[1] and fail_recorded_at is None and any(x[0] == "end" and not x[2] for x in it["ev"]):
+                    fail_recorded_at = pos      # the task whose script failed has ended: __taskWrapper recorded the error
+                pos += 1
     recursive = bool(o.get("recursive"))
-    for t, e, snap in events:
+    for pos_, (t, e, snap) in enumerate(events):
         k = e[0]
         if k == "start":
             p = e[1]
@@ -350,9 +425,11 @@ def oracle_trace(o):
             if len(running) > jobs:
                 out.append(("more-scripts-than-jobs" + ("-recursive-jobserver" if recursive else ""),
                             "%d scripts running with %d jobs configured" % (len(running), jobs)))
-            # 4. failure stops the build
-            if first_fail_seen and not keep:
-                pass  # scripts of tasks that passed the check before the failure may still start; see `running` check below
+            # 4. without keep-going a failure stops the build: a task created after the failure was recorded
+            #    has to find `running` cleared before it can start a script
+            if not keep and fail_recorded_at is not None and spawned_at.get(t, -1) > fail_recorded_at and pos_ > fail_recorded_at:
+                out.append(("build-continued-after-failure",
+                            "script of %s started by a task that was created after a failure had been recorded (no keep-going)" % p))
         elif k == "end":
             p = e[1]
             running.discard(p)
@@ -379,36 +456,9 @@ def oracle_trace(o):
         out.append(("failure-not-reported", "a script failed but the build reported success"))
     if res == "fail" and not any_failed and "injected" not in (o.get("slogan") or ""):
         out.append(("spurious-build-failure", "build failed without a failing script: %s" % o.get("slogan")))
-    # 5. failure confinement: a step whose (transitive) dependency failed never starts -- follows from 1.
-    #    With keep-going every reachable step none of whose transitive dependencies failed was executed.
-    if res in ("ok", "fail") and (keep or not any_failed) and not o["co0"]:
-        bad_paths = set(failed_paths)
-        need = set()
-
-        def visit(s, seen):
-            """returns True if s or something below it failed"""
-            if s in seen:
-                return seen[s]
-            n = graph[s]
-            seen[s] = False
-            if not n["valid"]:
-                return False        # dependencies of an invalid step are never cooked
-            below = False
-            for d in n["deps"]:
-                if visit(d, seen):
-                    below = True
-            if n["path"] in bad_paths:
-                below = True
-            if not below:
-                need.add(n["path"])
-            seen[s] = below
-            return below
-        seen = {}
-        for t_ in o["targets"]:
-            visit(t_, seen)
-        for p in sorted(need):
-            if p not in finished_ok:
-                out.append(("independent-step-not-built", "step %s has no failed dependency but was not executed (keep-going=%s)" % (p, keep)))
+    if res == "ok" and not any_failed and not o["co0"]:
+        for _, p in _keepgoing_incomplete(o):
+            out.append(("successful-build-left-step-unbuilt", "build succeeded but reachable step %s was not executed" % p))
     # 6. tokens
     if res in ("ok", "fail"):
         if held != 0:
@@ -442,6 +492,52 @@ def oracle_trace(o):
             s = next((i for i in bypath.get(p, []) if graph[i]["valid"]), None)
             if s is not None and content != value(s):
                 out.append(("result-differs-from-sequential-build", "content of %s is %r, a sequential build gives %r" % (p, content, value(s))))
+    return out
+
+
+def _keepgoing_incomplete(o):
+    """with keep-going: reachable steps none of whose transitive dependencies failed but that were not executed"""
+    out = []
+    graph = o["graph"]
+    keep = "-k" in o["case"]["argv"]
+    finished_ok, failed_paths = set(), set()
+    for it in o["trace"]:
+        if it["k"] == "task":
+            for e in it["ev"]:
+                if e[0] == "end":
+                    (finished_ok if e[2] else failed_paths).add(e[1])
+    res = o["result"]
+    any_failed = bool(failed_paths)
+    # 5. failure confinement: a step whose (transitive) dependency failed never starts -- follows from 1.
+    #    With keep-going every reachable step none of whose transitive dependencies failed was executed.
+    if res in ("ok", "fail") and (keep or not any_failed) and not o["co0"]:
+        bad_paths = set(failed_paths)
+        need = set()
+
+        def visit(s, seen):
+            """returns True if s or something below it failed"""
+            if s in seen:
+                return seen[s]
+            n = graph[s]
+            seen[s] = False
+            if not n["valid"]:
+                return False        # dependencies of an invalid step are never cooked
+            below = False
+            for d in n["deps"]:
+                if visit(d, seen):
+                    below = True
+            if n["path"] in bad_paths:
+                below = True
+            if not below:
+                need.add(n["path"])
+            seen[s] = below
+            return below
+        seen = {}
+        for t_ in o["targets"]:
+            visit(t_, seen)
+        for p in sorted(need):
+            if p not in finished_ok:
+                out.append(("keep-going-leaves-independent-step-unbuilt", p))
     return out
 
 
@@ -697,3 +793,371 @@ def sem_alone_compare(res, replies):
                 bad.append({"op": op, "t": i, "state": d})
                 break
     return bad
+
+
+# ---------------------------------------------------------------------------- real subprocess runs
+
+def real_start(repo, spec, d, jobs, keep, fail):
+    from gen import c06_projects as P
+    roots = P.write_project(spec, d, real=True, fail=set(tuple(f) for f in fail))
+    argv = [sys.executable, os.path.join(repo, "bob"), "dev"] + roots + ["-A", "--download", "no", "-j", str(jobs)]
+    if keep:
+        argv.append("-k")
+    env = dict(os.environ, PYTHONPATH=os.path.join(repo, "pym"), PYTHONDONTWRITEBYTECODE="1")
+    env.pop("MAKEFLAGS", None)
+    return subprocess.Popen(argv, cwd=d, stdout=subprocess.DEVNULL, stderr=subprocess.DEVNULL, env=env)
+
+
+def real_collect(d):
+    log = []
+    try:
+        for l in open(os.path.join(d, "events.log")):
+            w = l.split()
+            if len(w) >= 4 and w[0] in ("start", "end"):
+                log.append(w)
+    except OSError:
+        pass
+    results = {}
+    for root, dirs, files in os.walk(os.path.join(d, "dev", "dist")):
+        if "result.txt" in files and root.endswith("workspace"):
+            results[os.path.relpath(root, d)] = open(os.path.join(root, "result.txt")).read()
+    return log, results
+
+
+def real_oracle(spec, jobs, keep, fail, rc, log, d):
+    out = []
+    pk = {p["name"]: p for p in spec["packages"]}
+    names = [p["name"] for p in spec["packages"]]
+    ok_end = set()          # (pkg, what) with a successful end so far
+    running = {}            # cwd -> (pkg, what)
+    state = {}              # cwd -> "running" | "ok" | "fail"
+    failed_any = False
+    for w in log:
+        if w[0] == "start":
+            pkg, what, cwd = w[1], w[2], w[3]
+            p = pk.get(pkg)
+            need = []
+            if p is not None:
+                if what == "build":
+                    if p["checkout"]:
+                        need.append((pkg, "checkout"))
+                    for j in sorted(set(p["deps"]) | set(p["buildTools"])):
+                        need.append((names[j], "package"))
+                elif what == "package":
+                    if p["build"]:
+                        need.append((pkg, "build"))
+                elif what == "checkout":
+                    for j in p["checkoutTools"]:
+                        need.append((names[j], "package"))
+            for nd in need:
+                if nd not in ok_end:
+                    out.append(("step-started-before-dependency-finished", "%s %s started before %s %s ended successfully" % (pkg, what, nd[0], nd[1])))
+            if state.get(cwd) == "running":
+                out.append(("workspace-executed-concurrently", "two scripts at once in %s" % os.path.relpath(cwd, d)))
+            elif state.get(cwd) == "ok":
+                out.append(("workspace-executed-twice", "%s executed a second time" % os.path.relpath(cwd, d)))
+            state[cwd] = "running"
+            running[cwd] = (pkg, what)
+            if len(running) > jobs:
+                out.append(("more-scripts-than-jobs", "%d scripts running with -j %d" % (len(running), jobs)))
+        else:
+            pkg, what, cwd, res = w[1], w[2], w[3], (w[4] if len(w) > 4 else "ok")
+            running.pop(cwd, None)
+            if res == "ok":
+                state[cwd] = "ok"
+                ok_end.add((pkg, what))
+            else:
+                state[cwd] = "fail"
+                failed_any = True
+    if rc == 0 and (failed_any or fail):
+        if failed_any:
+            out.append(("failure-not-reported", "a script failed but bob dev exited with 0"))
+    if rc != 0 and not failed_any:
+        out.append(("spurious-build-failure", "bob dev exited with %s although no script failed" % rc))
+    return out
+
+
+# ---------------------------------------------------------------------------- the check
+
+_STATE = {}
+
+
+def _sem_args(ctx, i):
+    r = ctx.subrng("sem", i)
+    return (ctx.repo, "%d-%d" % (ctx.seed, i), i % 2 == 1, r.randrange(1, 4), r.randrange(2, 6), 40)
+
+
+def oracle(ctx):
+    from gen import c06_projects as P
+    repo = ctx.repo
+    t0 = time.time()
+    budget = ctx.time_left()
+    # (b) controlled runs of the real builder: children run while the rest goes on
+    base = os.path.join(ctx.tmp, "ctl")
+    os.makedirs(base)
+    r = ctx.subrng("controlled")
+    n_ctl = ctx.scale(40, 1500)
+    tcases = targeted_cases(r, base)
+    cases = tcases + [gen_controlled_case(r, base, i, 0.35) for i in range(n_ctl)]
+    workers = min(8, max(2, (os.cpu_count() or 4) // 2))
+    tpool = ChildPool(repo, tcases, base, 2, tag="t")
+    ctl = ChildPool(repo, cases[len(tcases):], base, workers)
+    # (c) real subprocess runs
+    real = []
+    rr = ctx.subrng("real")
+    for i in range(ctx.scale(2, 24)):
+        spec = P.gen_spec(rr, rr.randrange(3, 7))
+        jobs = rr.choice([2, 3, 4])
+        keep = rr.random() < 0.4
+        fail = []
+        if rr.random() < 0.4:
+            p = rr.choice(spec["packages"])
+            fail = [[p["name"], rr.choice(["checkout", "build", "package"])]]
+        dseq = os.path.join(ctx.tmp, "real%d-seq" % i)
+        dpar = os.path.join(ctx.tmp, "real%d-par" % i)
+        real.append({"spec": spec, "jobs": jobs, "keep": keep, "fail": fail, "dseq": dseq, "dpar": dpar,
+                     "pseq": real_start(repo, spec, dseq, 1, keep, fail), "ppar": real_start(repo, spec, dpar, jobs, keep, fail)})
+    # (a) semaphore alone, in this process, for a share of the budget
+    sem = []
+    n_sem = ctx.scale(120, 6000)
+    i = 0
+    while i < n_sem and (i < 24 or (time.time() - t0 < 0.22 * budget and not ctx.out_of_time())):
+        res = sem_alone_run(_sem_args(ctx, i))
+        res["i"] = i
+        sem.append(res)
+        nontriv = any(x[0] in ("resume", "callback") or x[2] == "blocked" for x in res["log"])
+        ctx.case(("sem", res["seed"], res["recursive"]), nontrivial=nontriv,
+                 sample={"kind": "semaphore-alone", "recursive": res["recursive"], "tokens": res["n"], "tasks": res["k"],
+                         "ops": [x[:3] for x in res["log"][:12]]})
+        for x in res["log"]:
+            ctx.count("sem_op", "%s:%s" % (x[0], x[2]))
+        for sig, text in sem_alone_oracle(res):
+            ctx.violation("semaphore alone (recursive=%s, %d tokens, %d tasks): %s" % (res["recursive"], res["n"], res["k"], text),
+                          {"kind": "sem", "args": list(_sem_args(ctx, i))[1:]}, sig)
+        i += 1
+    # collect (b)
+    ctl.wait(max(5.0, min(0.55 * budget, ctx.time_left() - 0.30 * budget)))
+    tpool.wait(max(30.0, ctx.time_left() - 0.2 * budget) if ctx.tier == "quick" else 600.0)   # the targeted cases are the minimum
+    results = dict(ctl.results)
+    results.update(tpool.results)
+    got = 0
+    for c in cases:
+        o = results.get(c["name"])
+        if o is None:
+            continue
+        if o.get("result") in ("harness-error",) or not o.get("graph"):
+            ctx.count("controlled", "no-trace:" + str(o.get("result")))
+            continue
+        got += 1
+        st = trace_stats(o)
+        for k, v in st.items():
+            if k == "max-running":
+                ctx.count("controlled_max_running", v)
+            else:
+                ctx.count("controlled", k, v)
+        ctx.count("controlled_result", o["result"])
+        ctx.case(("ctl", json.dumps(c["spec"], sort_keys=True), c["argv"], c["choices"][:8], c["fail"], c["makeflags"]),
+                 nontrivial=st.get("script-start", 0) > 0,
+                 sample={"kind": "controlled", "argv": c["argv"], "makeflags": c["makeflags"], "fail": c["fail"],
+                         "result": o["result"], "tasks": len(o["tasks"]), "steps": len(o["trace"])})
+        for sig, text in oracle_trace(o):
+            ctx.violation("bob dev %s (external job server: %s): %s" % (" ".join(c["argv"]), c["makeflags"], text),
+                          {"kind": "controlled", "case": {k: v for k, v in c.items() if k not in ("dir", "name")}}, sig)
+        for sig, text in oracle_keepgoing(o):
+            ctx.count("observation", sig)
+    if got < len(cases):
+        ctx.skip("controlled builder runs: %d of %d finished within the time budget" % (got, len(cases)))
+    _STATE["controlled"] = [(c, results[c["name"]]) for c in cases if c["name"] in results and results[c["name"]].get("graph")]
+    _STATE["sem"] = sem
+    # collect (c)
+    for i, e in enumerate(real):
+        left = max(1.0, ctx.time_left() - 0.22 * budget)
+        try:
+            rc_seq = e["pseq"].wait(timeout=left)
+            rc_par = e["ppar"].wait(timeout=max(1.0, ctx.time_left() - 0.22 * budget))
+        except subprocess.TimeoutExpired:
+            for p in (e["pseq"], e["ppar"]):
+                if p.poll() is None:
+                    p.kill()
+                    p.wait()
+            ctx.skip("real subprocess run %d did not finish within the time budget" % i)
+            continue
+        case = {"kind": "real", "spec": e["spec"], "jobs": e["jobs"], "keep": e["keep"], "fail": e["fail"]}
+        viol = real_check(e, rc_seq, rc_par)
+        ctx.case(("real", json.dumps(e["spec"], sort_keys=True), e["jobs"], e["keep"], e["fail"]),
+                 sample={"kind": "real-subprocess", "jobs": e["jobs"], "keep": e["keep"], "fail": e["fail"], "rc": [rc_seq, rc_par]})
+        ctx.count("real", "rc=%s" % rc_par)
+        for sig, text in viol:
+            ctx.violation("real run -j%d%s: %s" % (e["jobs"], " -k" if e["keep"] else "", text), case, sig)
+
+
+def real_check(e, rc_seq, rc_par):
+    log_s, res_s = real_collect(e["dseq"])
+    log_p, res_p = real_collect(e["dpar"])
+    out = []
+    out += real_oracle(e["spec"], 1, e["keep"], e["fail"], rc_seq, log_s, e["dseq"])
+    out += real_oracle(e["spec"], e["jobs"], e["keep"], e["fail"], rc_par, log_p, e["dpar"])
+    if (rc_seq == 0) != (rc_par == 0):
+        out.append(("parallel-result-differs-from-sequential", "exit status %s with -j%d, %s sequentially" % (rc_par, e["jobs"], rc_seq)))
+    for k in sorted(set(res_s) & set(res_p)):
+        if res_s[k] != res_p[k]:
+            out.append(("parallel-result-differs-from-sequential", "%s: %r with -j%d, %r sequentially" % (k, res_p[k], e["jobs"], res_s[k])))
+    if not e["fail"] and set(res_s) != set(res_p):
+        out.append(("parallel-result-differs-from-sequential", "different sets of results: %s" % sorted(set(res_s) ^ set(res_p))))
+    return out
+
+
+def oracle_keepgoing(o):
+    """observation only (DESIGN theorem 5c is refuted for model and code by the build-id pre-pass)"""
+    return [x for x in _keepgoing_incomplete(o)]
+
+
+class ChildPool:
+    """child processes running controlled cases; a child that met a deadlock is restarted for the rest"""
+
+    def __init__(self, repo, cases, out_dir, workers, tag=""):
+        self.repo = repo
+        self.env = dict(os.environ, PYTHONPATH=os.path.join(repo, "pym"), PYTHONDONTWRITEBYTECODE="1")
+        self.entries = []
+        self.results = {}
+        chunks = [cases[i::workers] for i in range(workers)]
+        for i, ch in enumerate(chunks):
+            if ch:
+                e = {"cases": ch, "out": os.path.join(out_dir, "child%s%d.jsonl" % (tag, i)), "p": None, "done": 0, "restarts": 0}
+                self.entries.append(e)
+                self._spawn(e)
+
+    def _spawn(self, e):
+        rest = e["cases"][e["done"]:]
+        p = subprocess.Popen([sys.executable, CHILD], stdin=subprocess.PIPE, stdout=subprocess.DEVNULL,
+                             stderr=subprocess.DEVNULL, env=self.env)
+        p.stdin.write(json.dumps({"cases": [{k: v for k, v in c.items() if k != "spec"} for c in rest],
+                                  "out": e["out"], "repo": self.repo}).encode())
+        p.stdin.close()
+        e["p"] = p
+
+    def _read(self, e):
+        got = 0
+        if os.path.exists(e["out"]):
+            for l in open(e["out"]).read().splitlines():
+                try:
+                    o = json.loads(l)
+                except ValueError:
+                    continue
+                self.results[o.get("name")] = o
+                got += 1
+        e["done"] = got
+
+    def wait(self, timeout):
+        t0 = time.time()
+        pending = list(self.entries)
+        while pending:
+            for e in list(pending):
+                if e["p"].poll() is None:
+                    if time.time() - t0 > timeout:
+                        e["p"].kill()
+                        e["p"].wait()
+                        self._read(e)
+                        pending.remove(e)
+                    continue
+                self._read(e)
+                if e["done"] < len(e["cases"]) and e["p"].returncode == 3 and e["restarts"] < 20 and time.time() - t0 <= timeout:
+                    e["restarts"] += 1
+                    self._spawn(e)
+                else:
+                    pending.remove(e)
+            time.sleep(0.1)
+
+
+def correspond(ctx):
+    ctl = _STATE.get("controlled", [])
+    sem = _STATE.get("sem", [])
+    reqs = []
+    plan = []
+    for c, o in ctl:
+        rq, ex = model_requests(o)
+        # a few random schedules of the model on the same project, all invariants evaluated at every step
+        extra = [{"op": "explore", "seed": ctx.seed * 7919 + len(plan), "runs": ctx.scale(6, 40), "maxsteps": 3000,
+                  "failmod": fm, "takes": 3} for fm in (0, 3)]
+        plan.append(("ctl", c, o, rq, ex, len(rq), len(extra)))
+        reqs += rq + extra
+    for res in sem:
+        rq = sem_alone_requests(res)
+        plan.append(("sem", res, None, rq, None, len(rq), 0))
+        reqs += rq
+    if not reqs:
+        ctx.skip("correspondence: no implementation trace available")
+        return
+    replies = ctx.lean(DRIVER, reqs, timeout=max(60, ctx.time_left() + 60))
+    pos = 0
+    for kind, c, o, rq, ex, n, nx in plan:
+        rp = replies[pos:pos + n]
+        xp = replies[pos + n:pos + n + nx]
+        pos += n + nx
+        if kind == "ctl":
+            bad = compare(o, rq, ex, rp)
+            ctx.trace_validated(1)
+            ctx.count("correspond", "controlled-steps", n)
+            if bad:
+                ctx.disagree("LocalBuilder.cook trace == Model.Sched (events and state after every task step)",
+                             {"kind": "controlled", "case": {k: v for k, v in c.items() if k not in ("dir", "name")}},
+                             bad[0].get("impl", bad[0].get("diff")), bad[0].get("model", bad[0]))
+            for x in xp:
+                ctx.count("correspond", "explored-model-steps", x.get("steps", 0))
+                ctx.count("correspond", "explored-terminal-runs", x.get("terminal", 0))
+                if x.get("violation"):
+                    ctx.disagree("executable invariants of Props/C06 hold on random schedules of the model",
+                                 {"kind": "controlled", "case": {k: v for k, v in c.items() if k not in ("dir", "name")}},
+                                 None, x["violation"])
+        else:
+            bad = sem_alone_compare(c, rp)
+            ctx.trace_validated(1)
+            ctx.count("correspond", "semaphore-ops", n)
+            if bad:
+                ctx.disagree("JobServerSemaphore on a real FIFO == Model.JobSem (result and state after every operation)",
+                             {"kind": "sem", "args": [c["seed"], c["recursive"], c["n"], c["k"], 40]}, bad[0], None)
+
+
+def replay(ctx, case):
+    k = case.get("kind")
+    if k == "sem":
+        res = sem_alone_run(tuple([ctx.repo] + list(case["args"])))
+        for sig, text in sem_alone_oracle(res):
+            ctx.violation(text, case, sig)
+    elif k == "controlled":
+        from gen import c06_projects as P
+        c = dict(case["case"])
+        d = os.path.join(ctx.tmp, "replay")
+        P.write_project(c["spec"], d)
+        c["dir"] = d
+        c["name"] = "replay"
+        pool = ChildPool(ctx.repo, [c], ctx.tmp, 1)
+        pool.wait(300)
+        o = pool.results.get("replay")
+        if o and o.get("graph"):
+            for sig, text in oracle_trace(o):
+                ctx.violation(text, case, sig)
+    elif k == "real":
+        e = dict(case)
+        e["dseq"] = os.path.join(ctx.tmp, "rseq")
+        e["dpar"] = os.path.join(ctx.tmp, "rpar")
+        ps = real_start(ctx.repo, e["spec"], e["dseq"], 1, e["keep"], e["fail"])
+        pp = real_start(ctx.repo, e["spec"], e["dpar"], e["jobs"], e["keep"], e["fail"])
+        rc_s = ps.wait(timeout=600)
+        rc_p = pp.wait(timeout=600)
+        for sig, text in real_check(e, rc_s, rc_p):
+            ctx.violation(text, case, sig)
+
+
+MANIFEST = {
+    "text": "Proved in Lean (Props/C06.lean) about a hand-written model of LocalBuilder.cook's cooperative scheduler and of "
+            "JobServerSemaphore / BoundedSemaphore / asyncio.Lock, for all projects, job counts and schedules: see the file for the "
+            "list (tokens_conserved, tokens_returned, release_never_raises, no_lost_wakeup, running_le_jobs, ...). The model is tied "
+            "to the current source by replaying, event by event and state by state, the schedules that the REAL cook (bob dev "
+            "in-process on a real asyncio loop with harness-controlled script completion) and the real JobServerSemaphore on a real "
+            "FIFO took. The property oracle runs on the implementation traces and on real subprocess builds.",
+    "note": "trusted: Lean kernel, harness/props/c06.py + harness/gen/c06_child.py, CPython 3.12 asyncio (cooperative contract, "
+            "Semaphore/Lock semantics as modelled and validated differentially); not covered: SIGINT/cancellation, restart round of "
+            "live build-ids, downloads, shared packages, fingerprint scripts, real time",
+    "technique": "Lean 4 proof over hand-written model + schedule-replay correspondence + trace oracle",
+}
